@@ -170,10 +170,12 @@ def match_values(vec_a, vec_b, collocation_distance=1e-4) -> np.ndarray:
         np.searchsorted(vec_a[ind_sort], vec_b, side="right"), vec_a.shape[0] - 1
     )
     nearests = np.c_[ind, ind - 1]
+    distances = np.abs(vec_a[ind_sort][nearests] - vec_b[:, None])
+    closest = np.argmin(distances, axis=1)
     match = np.where(
-        np.abs(vec_a[ind_sort][nearests] - vec_b[:, None]) < collocation_distance
-    )
-    indices = np.c_[ind_sort[nearests[match[0], match[1]]], match[0]]
+        distances[np.arange(closest.shape[0]), closest] < collocation_distance
+    )[0]
+    indices = np.c_[ind_sort[nearests[match, closest[match]]], match]
     return indices
 
 
